@@ -33,21 +33,21 @@ template<> struct nth<9> { using type = u128; };
 
 using L = nth<LHS_INDEX>::type;
 
-// operand sets.  thorough: 8-bit operands are enumerated completely.  quick: an 8-bit left operand is
+// operand sets.  thorough: 8-bit x 8-bit operand pairs are enumerated completely under the saturated tag.  quick: an 8-bit left operand is
 // enumerated completely against the TLC boundary set (tier <= 1) of an 8-bit right operand; everything
 // else uses the TLC boundary set (tier 0) plus seeded random values.
 template<class T, class Other, bool IsLhs>
-std::vector<T> values_for(std::uint64_t salt)
+std::vector<T> values_for(std::uint64_t salt, bool both8)
 {
     if constexpr (sizeof(T) == 1) {
-        if (thorough() || (IsLhs && sizeof(Other) == 1)) {
+        if ((IsLhs && sizeof(Other) == 1) || (both8 && sizeof(Other) == 1)) {
             return all_values<T>();
         }
         if (sizeof(Other) == 1) {
             return boundary<T>(1);
         }
     }
-    return operands<T>(thorough() ? 40 : 5, salt);
+    return operands<T>(thorough() ? 12 : 5, salt, 0);
 }
 
 template<class T>
@@ -205,18 +205,19 @@ void run_conv_float(sink& out)
 template<class Tag, class R>
 void family(sink& out, bool full)
 {
-    auto ls = values_for<L, R, true>(LHS_INDEX * 100 + 1);
-    auto rs = values_for<R, L, false>(LHS_INDEX * 100 + 2);
+    bool const both8 = thorough() && std::is_same_v<Tag, cnl::saturated_overflow_tag>;
+    auto ls = values_for<L, R, true>(LHS_INDEX * 100 + 1, both8);
+    auto rs = values_for<R, L, false>(LHS_INDEX * 100 + 2, both8);
     using namespace cnl::_impl;
     run_bin<add_op, Tag>(out, "add", ls, rs);
     run_bin<subtract_op, Tag>(out, "sub", ls, rs);
     run_bin<multiply_op, Tag>(out, "mul", ls, rs);
     run_bin<divide_op, Tag>(out, "div", ls, rs);
     // shifts: boundary lhs only (counts are enumerated 0..130 and max)
-    auto bl = thorough() ? all_values_or_boundary<L>() : boundary<L>(1);
+    auto bl = (thorough() && !both8) ? boundary<L>(0) : boundary<L>(1);
     run_bin<shift_left_op, Tag>(out, "shl", bl, shift_counts<R>());
-    run_conv<Tag, L, R>(out, operands<L>(thorough() ? 200 : 20, LHS_INDEX * 100 + 4, thorough() ? 2 : 1));
-    run_conv_wrapper<Tag, L, R>(out, operands<L>(thorough() ? 100 : 10, LHS_INDEX * 100 + 5, thorough() ? 2 : 1));
+    run_conv<Tag, L, R>(out, operands<L>(thorough() ? 40 : 20, LHS_INDEX * 100 + 4, 1));
+    run_conv_wrapper<Tag, L, R>(out, operands<L>(thorough() ? 20 : 10, LHS_INDEX * 100 + 5, 1));
     if (full) {
         auto bls = boundary<L>(0);
         auto brs = boundary<R>(0);
